@@ -148,6 +148,15 @@ func Main(verifDir string, args []string) int {
 			return 2
 		}
 		s := &Supervisor{Prop: p, Tier: rf.Tier, Seed: rf.Seed, Self: self, VerifDir: verifDir, Workers: 1}
+		if rf.Engine == "F" {
+			fbin := os.Getenv("VERIF_F_BIN")
+			if fbin == "" {
+				fmt.Fprintln(os.Stderr, "replay: this file was recorded by the Engine F phase; the instrumented build is not available")
+				return 2
+			}
+			s.Self = fbin
+			s.ExtraEnv = []string{"VERIF_ENGINE_F=1"}
+		}
 		ok, res, err := s.ReplayOne(rf)
 		if err != nil {
 			fmt.Fprintln(os.Stderr, "replay: infrastructure trouble:", err)
@@ -261,6 +270,39 @@ func (s *Supervisor) RunCheck(secondsOverride int) int {
 		return 2
 	}
 
+	// 2b. Engine F phase: the same property against the instrumented build, if one was produced
+	var sF *Supervisor
+	var oF *Outcome
+	fBudget := time.Duration(p.FQuickSeconds) * time.Second
+	if s.Tier == "thorough" {
+		fBudget = time.Duration(p.FThoroughSeconds) * time.Second
+	}
+	if secondsOverride > 0 && fBudget > 0 {
+		fBudget = time.Duration(secondsOverride) * time.Second
+	}
+	fNote := ""
+	if fBudget > 0 {
+		fbin := os.Getenv("VERIF_F_BIN")
+		if st, err := os.Stat(fbin); fbin == "" || err != nil || st.IsDir() {
+			fNote = "Engine F phase skipped: the instrumented build was not produced (see the build output above)"
+			fmt.Println(fNote)
+		} else {
+			cp := *s
+			sF = &cp
+			sF.Self = fbin
+			sF.ExtraEnv = []string{"VERIF_ENGINE_F=1"}
+			oF = sF.Search(fBudget)
+			if len(oF.Infra) > 0 {
+				fmt.Println("infrastructure trouble (Engine F phase):")
+				for _, l := range oF.Infra {
+					fmt.Println("  ", l)
+				}
+				return 2
+			}
+			fmt.Printf("engine F phase: runs=%d scheduling steps=%d distinct schedules=%d failures=%d\n", oF.Runs, oF.ILSteps, len(oF.ILSigs), len(oF.FailureKeys))
+		}
+	}
+
 	// 3. minimise and classify each distinct failure
 	isKnown := func(key string) *KnownFinding {
 		for i := range known {
@@ -306,6 +348,52 @@ func (s *Supervisor) RunCheck(secondsOverride int) int {
 		fmt.Printf("violation: invariant=%s class=%q seq=%d tape_len=%d\n  %s\n", f.Invariant, f.Class, f.Seq, len(res.Tape), strings.ReplaceAll(f.Detail, "\n", "\n  "))
 		violationLines = append(violationLines, fmt.Sprintf("VIOLATION property=%s replay=%s", p.ID, path))
 	}
+
+	if oF != nil {
+		for _, key := range oF.FailureKeys {
+			if k := isKnown(key); k != nil {
+				if !knownSeen[key] {
+					knownSeen[key] = true
+					knownLines = append(knownLines, fmt.Sprintf("KNOWN-FINDING: property=%s %s [%s] %s", p.ID, k.ID, key, k.Description))
+				}
+				continue
+			}
+			if _, dup := o.Failures[key]; dup || reported >= 8 {
+				continue
+			}
+			reported++
+			path, res, err := sF.MinimiseF(oF, key, shrinkBudget)
+			if uc, ok := err.(*errUnconfirmed); ok {
+				o.Unconfirmed = append(o.Unconfirmed, "engine F: "+uc.Error())
+				fmt.Printf("unconfirmed observation (not an alarm): engine F: %s\n", uc.Error())
+				continue
+			}
+			if err != nil {
+				fmt.Printf("infrastructure trouble: engine F failure %s of run %d could not be confirmed: %v\n", key, oF.Failures[key].Index, err)
+				return 2
+			}
+			violations++
+			f := findFailure(res, key)
+			fmt.Printf("violation (engine F): invariant=%s class=%q seq=%d tape_len=%d\n  %s\n", f.Invariant, f.Class, f.Seq, len(res.Tape), strings.ReplaceAll(f.Detail, "\n", "\n  "))
+			violationLines = append(violationLines, fmt.Sprintf("VIOLATION property=%s replay=%s", p.ID, path))
+		}
+		o.FRuns, o.FSteps, o.FSchedules, o.FWall = oF.Runs, oF.ILSteps, len(oF.ILSigs), oF.SearchWall
+		o.Confirmations = append(o.Confirmations, oF.Confirmations...)
+		for k, v := range oF.Faults {
+			o.Faults[k] += v
+		}
+		for k, v := range oF.Probes {
+			o.Probes[k] += v
+		}
+		o.Runs += oF.Runs
+		o.Events += oF.Events
+		o.SimNanos += oF.SimNanos
+		o.SearchWall += oF.SearchWall
+		for sg := range oF.Sigs {
+			o.Sigs[sg] = struct{}{}
+		}
+	}
+	o.FNote = fNote
 
 	// 4. samples
 	ev := &evaluator{s: s}
@@ -424,6 +512,8 @@ func (s *Supervisor) writeEvidence(o *Outcome, violations int, knownLines []stri
 		"worker_crashes":      o.WorkerCrash,
 		"shrink_evaluations":  o.ShrinkEvals,
 		"known_findings_seen": knownLines,
+		"engine_f": map[string]interface{}{"runs": o.FRuns, "scheduling_steps": o.FSteps, "distinct_schedules": o.FSchedules, "wall_s": o.FWall.Seconds(), "note": o.FNote,
+			"measure": "distinct 64-bit hashes of the sequence of resumed scheduling sites (file:line of the statement or lock about to execute) over the runs of the Engine F phase"},
 		"confirmations":       o.Confirmations,
 		"unconfirmed_observations": o.Unconfirmed,
 		"repo_tree":           RepoTreeID(),
